@@ -439,7 +439,7 @@ func runUDP(c *UDPCase) (fail *failure, class string, nt bool, sig string) {
 		detail := fmt.Sprintf("UDP() still running %v after the tunnel stream ended (%s at offset %d of %d, cut %s, %d records complete); UDP side %s; tunnel Read called %d times after the end was returned (+%d in the last 5 ms)",
 			B, end, cut, len(stream), cc, len(want), mode, r2, r2-r1)
 		switch {
-		case r2 > 1000 && r2 > r1:
+		case r2 > 1000: // a relay that keeps reading a stream that has ended: the spin (it may be descheduled right now)
 			return hangf(spinKey, "%s", detail), "", false, ""
 		case udpOpenAtEnd:
 			return hangf(keyWaitsUDP, "%s", detail), "", false, ""
